@@ -6,14 +6,15 @@ from mc.core import Acc, Hang
 
 ID = "C08"
 RULE = ("E-INPUT: every multiset of <= 3 (thorough <= 4) data over times {0,1,1.5,4,9,10} x widths {20,55} x text {absent,'ab'} "
-        "(+ a seeded time) x 4 directions x 5 engine option sets (label spacing 3 or 5, bounds, simple algorithm) x layer gaps "
+        "(+ a seeded time) x 4 directions x 6 engine option sets (label spacing 3 or 5, bounds, simple algorithm, zero-width stubs with zero line spacing) x layer gaps "
         "{1, 17.5, 60} (SVG; TikZ at gap 17.5), 3 label paddings in rotation, real export parsed into rectangles. Oracle: pairwise disjoint, wholly on the "
         "direction's side at >= layerGap-1 from the axis, farther layers wholly beyond nearer ones. "
         "Non-trivial: >= 2 labels whose unconstrained extents along the axis intersect.")
 ASSUMPTIONS = ["label spacing >= 3 and layer gap >= 1 as the statement restricts", "explicit widths only"]
 REQUIRED_COUNTERS = ("exports", "conflicting", "multi_layer")
 TIMES = (0, 1, 1.5, 4, 9, 10)
-ENG = ({}, {"maxPos": 100}, {"maxPos": 70, "algorithm": "simple"}, {"nodeSpacing": 5, "minPos": 10, "maxPos": 120}, {"nodeSpacing": 5})
+ENG = ({}, {"maxPos": 100}, {"maxPos": 70, "algorithm": "simple"}, {"nodeSpacing": 5, "minPos": 10, "maxPos": 120}, {"nodeSpacing": 5},
+       {"maxPos": 100, "stubWidth": 0, "lineSpacing": 0})
 GAPS = (1, 17.5, 60)
 PADS = (None, {"left": 12, "right": 12, "top": 3, "bottom": 2}, {"left": 1, "right": 0, "top": 9, "bottom": 8})
 
